@@ -152,8 +152,29 @@ def make_reuse_workload(seed):
     return "\n".join(lines) + "\n", pre, {"shape": shape, "threads": t + 1, "kind": "reuse"}
 
 
+def make_storage_workload(seed):
+    """concurrent create/create, delete/delete, create/delete on a few names, with data operations"""
+    r = random.Random("storage/%d" % seed)
+    lines = ["storage 61", "bg 0"]
+    names = [b"n1", b"", b"name_longer_than_8", b"n\x00"][: r.choice([1, 2, 3])]
+    nthreads = r.choice([2, 3, 3, 4])
+    for t in range(nthreads):
+        lines.append("thread %d" % t)
+        for i in range(r.choice([1, 2, 3])):
+            n = r.choice(names)
+            # kvs.h: create_storage / delete_storage may run in parallel with each other, but not
+            # with find/list or with data operations -- so only these two appear here
+            if r.random() < 0.55:
+                lines.append("op create %s" % hx(n))
+            else:
+                lines.append("op delete %s" % hx(n))
+    return "\n".join(lines) + "\n", {}, {"shape": "storages", "threads": nthreads, "kind": "storage"}
+
+
 def make_workload(seed, kind, shape=None):
     """returns (text, pre dict, meta)"""
+    if kind == "storage":
+        return make_storage_workload(seed)
     if kind == "reuse":
         return make_reuse_workload(seed)
     if kind.startswith("session"):
